@@ -15,14 +15,14 @@ From AC.Proofs Require Import BaseLemmas GroupedListSpec GroupedListProofs Trans
 Definition fitted (tables : list fmt_table) (st : state) : Prop := st = refresh tables st.
 
 (* a valid edit (on the CURRENT order): kept is never missing;
-   'group'   : kept is a leader; discarded (str_nan when missing) is a leader or unknown;
+   'group'   : kept is a leader or a NEW name (appended as a new last group); discarded (str_nan when missing) is a leader or unknown;
    'replace' : discarded is a leader; kept is unknown or a member of discarded's group *)
 Definition valid_edit (st : state) (m : umode) (d k : val) : Prop :=
   let g := st_order st in
   let d' := eff_d st d in
   k <> VNaN /\
   match m with
-  | MGroup => In k (keys g) /\ (In d' (keys g) \/ ~ In d' (values g))
+  | MGroup => (In k (keys g) \/ ~ In k (values g)) /\ (In d' (keys g) \/ ~ In d' (values g))
   | MReplace => In d' (keys g) /\ (~ In k (values g) \/ In k (get g d'))
   | MBad => False
   end.
@@ -30,7 +30,7 @@ Definition valid_edit (st : state) (m : umode) (d k : val) : Prop :=
 (* the groups after a completed edit, in the reference model of C13 *)
 Definition expected_abs (m : umode) (g : gl) (d k : val) : spec :=
   match m with
-  | MGroup => s_group (abs g ++ (if mem d (keys g) then [] else [(d, [d])])) d k
+  | MGroup => s_group (abs (ensure g k) ++ (if mem d (keys (ensure g k)) then [] else [(d, [d])])) d k
   | MReplace =>
       map (fun kv => if val_eqb d (fst kv)
                      then (k, if mem k (snd kv) then snd kv else k :: snd kv) else kv) (abs g)
@@ -186,8 +186,8 @@ Lemma edit_order_group : forall g d k, WF g -> In k (keys g) -> d <> k ->
   (In d (keys g) \/ ~ In d (values g)) ->
   exists g', edit_order g MGroup d k = (g', UDone) /\ WF g' /\ abs g' = expected_abs MGroup g d k.
 Proof.
-  intros g d k Hwf Hk Hne Hd. unfold edit_order, ensure, expected_abs.
-  rewrite (contains_true g k) by (apply leader_in_values; auto).
+  intros g d k Hwf Hk Hne Hd. unfold edit_order, expected_abs, ensure.
+  rewrite (contains_true g k) by (apply leader_in_values; auto). cbv iota.
   destruct Hd as [Hd|Hd].
   - rewrite (contains_true g d) by (apply leader_in_values; auto).
     destruct (group_spec g d k Hwf Hne Hd Hk) as (g' & H1 & H2 & _ & H3 & _).
@@ -205,6 +205,25 @@ Proof.
     assert (E : mem d (keys g) = false).
     { apply mem_false. intro Hi. apply Hd. apply leader_in_values; auto. }
     rewrite E, <- Ha1. exact H3.
+Qed.
+
+Lemma edit_order_group_new : forall g d k, WF g -> ~ In k (values g) -> d <> k ->
+  (In d (keys g) \/ ~ In d (values g)) ->
+  exists g', edit_order g MGroup d k = (g', UDone) /\ WF g' /\ abs g' = expected_abs MGroup g d k.
+Proof.
+  intros g d k Hwf Hk Hne Hd.
+  destruct (append_spec g k Hwf Hk) as (Hw1 & _ & Hv1).
+  assert (Hk1 : In k (keys (append g k)))
+    by (unfold append; cbn [keys]; apply in_or_app; right; left; reflexivity).
+  assert (Hc1 : contains (append g k) k = true) by (apply contains_true, leader_in_values; assumption).
+  assert (He : edit_order g MGroup d k = edit_order (append g k) MGroup d k).
+  { unfold edit_order, ensure. rewrite (contains_false g k Hk), Hc1. reflexivity. }
+  assert (Hx : expected_abs MGroup g d k = expected_abs MGroup (append g k) d k).
+  { unfold expected_abs, ensure. rewrite (contains_false g k Hk), Hc1. reflexivity. }
+  rewrite He, Hx. apply edit_order_group; [exact Hw1 | exact Hk1 | exact Hne |].
+  destruct Hd as [Hd|Hd].
+  - left. unfold append; cbn [keys]. apply in_or_app. left. exact Hd.
+  - right. rewrite Hv1. intro Hi. apply in_app_or in Hi. destruct Hi as [Hi|[Hi|[]]]; [tauto | congruence].
 Qed.
 
 Lemma edit_order_replace_member : forall g d k, WF g -> In d (keys g) -> In k (get g d) ->
@@ -313,11 +332,15 @@ Proof.
     { destruct (py_eq (get_group g d') k) eqn:Ep; [|reflexivity]. apply py_eq_true in Ep. contradiction. }
     rewrite Ep.
     destruct m; [| |contradiction].
-    + destruct Hv as [Hkk Hd].
-      assert (Hne : d' <> k).
-      { intro; subst k. apply E. apply get_group_leader; assumption. }
-      destruct (edit_order_group g d' k Hwf Hkk Hne Hd) as (g' & H1 & H2 & H3).
-      exists g'. rewrite H1. auto.
+    + destruct Hv as [[Hkk|Hkk] Hd].
+      * assert (Hne : d' <> k).
+        { intro; subst k. apply E. apply get_group_leader; assumption. }
+        destruct (edit_order_group g d' k Hwf Hkk Hne Hd) as (g' & H1 & H2 & H3).
+        exists g'. rewrite H1. auto.
+      * assert (Hne : d' <> k).
+        { intro; subst k. apply E. apply get_group_unknown; assumption. }
+        destruct (edit_order_group_new g d' k Hwf Hkk Hne Hd) as (g' & H1 & H2 & H3).
+        exists g'. rewrite H1. auto.
     + destruct Hv as [Hd [Hkf|Hkm]].
       * destruct (edit_order_replace_fresh g d' k Hwf Hd Hkf Hd') as (g' & H1 & H2 & H3).
         exists g'. rewrite H1. auto.
@@ -365,16 +388,22 @@ Qed.
 Lemma fitted_after_nan_test : forall tables st d, fitted tables st -> fitted tables (after_nan_test st d).
 Proof.
   intros tables [k g n df dr o l] d H. unfold after_nan_test. destruct (is_nan d); [|exact H].
-  unfold fitted, refresh, fitted_state_auto, fitted_state, set_dropna in *.
+  unfold fitted, refresh, fitted_state_fix, set_dropna in *.
   cbn [st_kind st_order st_nan st_default st_dropna st_odt st_lpv] in *.
-  injection H as Hl. rewrite <- Hl. reflexivity.
+  injection H as Hl. f_equal. exact Hl.
 Qed.
 
 (* a fitted state with a well-formed order is `coherent` (premise of the C04 theorems) *)
-Lemma fitted_coherent : forall tables st, WF (st_order st) -> fitted tables st ->
+(* str_nan is the last leader, or not a leader *)
+Definition nan_is_last (st : state) : Prop :=
+  nan_last (st_nan st) (keys (st_order st)) = keys (st_order st).
+
+Lemma fitted_coherent : forall tables st, WF (st_order st) -> fitted tables st -> nan_is_last st ->
   coherent (fmt_of tables (st_nan st) (st_order st)) st.
 Proof.
-  intros tables st Hwf Hf. split; [exact Hwf|]. rewrite Hf at 1. reflexivity.
+  intros tables st Hwf Hf Hl. split; [exact Hwf|]. rewrite Hf at 1.
+  unfold refresh, fitted_state_fix, norm_gl. cbn [st_lpv]. unfold nan_is_last in Hl. rewrite Hl.
+  destruct (st_order st); reflexivity.
 Qed.
 
 (* valid edit: completes (or warns), order stays well-formed, state stays fitted *)
@@ -395,7 +424,7 @@ Qed.
 (* 'group': every member of the discarded group (or the new modality / the missing value) joins
    the kept group, every other group is unchanged, the discarded leader disappears *)
 Theorem update_group_effect : forall tables st d k,
-  WF (st_order st) -> st_nan st <> VNaN -> valid_edit st MGroup d k ->
+  WF (st_order st) -> st_nan st <> VNaN -> valid_edit st MGroup d k -> In k (keys (st_order st)) ->
   let g := st_order st in
   let d' := eff_d st d in
   let g' := st_order (fst (update tables st MGroup d k)) in
@@ -406,15 +435,17 @@ Theorem update_group_effect : forall tables st d k,
   get g' k = (if mem d' (keys g) then get g d' else [d']) ++ get g k /\
   (forall x, x <> k -> x <> d' -> get g' x = get g x).
 Proof.
-  intros tables st d k Hwf Hnan Hv g d' g' Hne.
+  intros tables st d k Hwf Hnan Hv Hkk g d' g' Hne.
   destruct (update_valid tables st MGroup d k Hwf Hnan Hv) as [[H _]|[_ (g1 & Hw & Ha & H)]];
     [contradiction|].
-  unfold g'. rewrite H. cbn [fst snd st_order refresh fitted_state_auto fitted_state set_order].
-  destruct Hv as (Hk & Hkk & Hd). fold g d' in Hkk, Hd, Ha.
+  unfold g'. rewrite H. cbn [fst snd st_order refresh fitted_state_fix set_order].
+  destruct Hv as (Hk & _ & Hd). fold g d' in Hkk, Hd, Ha.
+  assert (Hens : ensure g k = g).
+  { unfold ensure. rewrite contains_true; [reflexivity | apply leader_in_values; assumption]. }
   assert (Hdk : d' <> k).
   { intro; subst k. apply Hne. apply get_group_leader; assumption. }
   set (s := abs g ++ (if mem d' (keys g) then [] else [(d', [d'])])) in *.
-  cbn [expected_abs] in Ha. fold s in Ha.
+  cbn [expected_abs] in Ha. rewrite Hens in Ha. fold s in Ha.
   assert (Hks : dget k s = Some (get g k)).
   { unfold s. apply dget_app_in. apply abs_dget; assumption. }
   assert (Hds : s_members s d' = if mem d' (keys g) then get g d' else [d']).
@@ -422,7 +453,7 @@ Proof.
     - rewrite app_nil_r. apply mem_In in E. rewrite (abs_dget g d' Hwf E). reflexivity.
     - rewrite dget_app_notin by (rewrite abs_keys; apply mem_false; exact E).
       cbn [dget]. rewrite val_eqb_refl. reflexivity. }
-  split; [reflexivity|]. split; [exact Ha|]. split; [|split].
+  split; [reflexivity|]. split; [cbn [expected_abs]; rewrite Hens; exact Ha|]. split; [|split].
   - rewrite <- (abs_keys g1), Ha, (keys_s_group s d' k Hdk). unfold s. rewrite map_app, filter_app, abs_keys.
     destruct (mem d' (keys g)) eqn:E; cbn [map filter fst]; [apply app_nil_r|].
     rewrite val_eqb_refl. cbn [negb]. apply app_nil_r.
@@ -454,7 +485,7 @@ Proof.
   destruct (update_valid tables st MReplace d k Hwf Hnan Hv) as [[H _]|[_ (g1 & Hw & Ha & H)]].
   - exfalso. destruct Hv as (_ & Hd & _). apply Hne. rewrite <- H.
     apply get_group_leader; assumption.
-  - unfold g'. rewrite H. cbn [fst snd st_order refresh fitted_state_auto fitted_state set_order].
+  - unfold g'. rewrite H. cbn [fst snd st_order refresh fitted_state_fix set_order].
     split; [reflexivity|]. split; [exact Ha|].
     rewrite <- (abs_keys g1), Ha. cbn [expected_abs]. unfold abs. rewrite !map_map.
     apply map_ext. intro x. cbn [fst]. fold d'. destruct (val_eqb d' x); reflexivity.
@@ -499,19 +530,21 @@ Proof. intros st (s & Hs & _). rewrite Hs. discriminate. Qed.
    to the label of the kept group's position; members of any other group x to x's label *)
 Theorem transform_after_group_qual : forall tables st d k x i v,
   WF (st_order st) -> nan_ok st -> st_kind st = Qual -> valid_edit st MGroup d k ->
+  In k (keys (st_order st)) ->
   get_group (st_order st) (eff_d st d) <> k ->
   let g := st_order st in
   let d' := eff_d st d in
   let st' := fst (update tables st MGroup d k) in
+  nan_is_last st' ->
   nth_error (keys (st_order st')) i = Some x ->
   In v (if val_eqb x k then (if mem d' (keys g) then get g d' else [d']) ++ get g k else get g x) ->
   v <> VNaN ->
   exists l, label_at (fmt_of tables (st_nan st') (st_order st')) st' i = Some l /\
             transform_cell st' v = Ok (reinstate st' (OLab l)).
 Proof.
-  intros tables st d k x i v Hwf Hnok Hkind Hv Hne g d' st' Hnth Hin Hvn.
+  intros tables st d k x i v Hwf Hnok Hkind Hv Hkk Hne g d' st' Hlast Hnth Hin Hvn.
   pose proof (nan_ok_not_VNaN st Hnok) as Hnan.
-  destruct (update_group_effect tables st d k Hwf Hnan Hv Hne) as (Hoc & _ & Hkeys & Hgk & Hother).
+  destruct (update_group_effect tables st d k Hwf Hnan Hv Hkk Hne) as (Hoc & _ & Hkeys & Hgk & Hother).
   destruct (update_preserves_wf tables st MGroup d k Hwf Hnan Hv) as (_ & Hwf' & _).
   pose proof (labels_refresh_consistent tables st MGroup d k Hoc) as Hfit.
   pose proof (update_fields tables st MGroup d k) as (Hk' & Hn' & _). cbv zeta in Hk', Hn'.
@@ -545,14 +578,14 @@ Qed.
 
 Theorem transform_after_edit_quant : forall tables st m d k x l i,
   let st' := fst (update tables st m d k) in
-  snd (update tables st m d k) = UDone -> WF (st_order st') ->
+  snd (update tables st m d k) = UDone -> WF (st_order st') -> nan_is_last st' ->
   st_kind st = Quant -> nan_ok st -> sentinel st' -> is_num x = true ->
   first_leader x (quant_leaders st') = Some l ->
   nth_error (keys (st_order st')) i = Some l ->
   exists lab, label_at (fmt_of tables (st_nan st') (st_order st')) st' i = Some lab /\
               transform_cell st' x = Ok (reinstate st' (OLab lab)).
 Proof.
-  intros tables st m d k x l i st' Hoc Hwf' Hkind Hnok Hsent Hx Hfl Hnth.
+  intros tables st m d k x l i st' Hoc Hwf' Hlast Hkind Hnok Hsent Hx Hfl Hnth.
   pose proof (labels_refresh_consistent tables st m d k Hoc) as Hfit.
   pose proof (update_fields tables st m d k) as (Hk' & Hn' & _). cbv zeta in Hk', Hn'.
   fold st' in Hfit, Hk', Hn'.
@@ -653,10 +686,10 @@ Proof.
   { assert (Hi : In k (quant_leaders st)) by (rewrite Hq; apply in_or_app; right; right; left; reflexivity).
     unfold quant_leaders in Hi. apply filter_In in Hi. tauto. }
   assert (Hv : valid_edit st MGroup d k).
-  { split; [exact Hkn|]. rewrite He. split; [exact Hkin | left; exact Hdin]. }
+  { split; [exact Hkn|]. rewrite He. split; [left; exact Hkin | left; exact Hdin]. }
   assert (Hgg : get_group (st_order st) (eff_d st d) <> k).
   { rewrite He, (get_group_leader _ d Hwf Hdin). exact Hne. }
-  destruct (update_group_effect tables st d k Hwf Hnan Hv Hgg) as (Hoc & _ & Hkeys & Hgk & _).
+  destruct (update_group_effect tables st d k Hwf Hnan Hv Hkin Hgg) as (Hoc & _ & Hkeys & Hgk & _).
   pose proof (update_fields tables st MGroup d k) as (_ & Hn' & _). cbv zeta in Hn'.
   fold st' in Hkeys, Hgk, Hn'. rewrite He in Hkeys, Hgk.
   assert (Hq' : quant_leaders st' = pre ++ k :: post).
@@ -700,7 +733,7 @@ Proof.
   split; [apply wf_b_spec; vm_compute; reflexivity|].
   split; [reflexivity|]. split; [reflexivity|]. split; [reflexivity|].
   split.
-  { split; [discriminate|]. split; [right; left; reflexivity | left; right; right; left; reflexivity]. }
+  { split; [discriminate|]. split; [left; right; left; reflexivity | left; right; right; left; reflexivity]. }
   cbv zeta. split; [vm_compute; reflexivity|]. split; [vm_compute; reflexivity|].
   split; [vm_compute; discriminate|]. split; vm_compute; reflexivity.
 Qed.
@@ -757,11 +790,13 @@ Proof.
   apply andb_true_iff in H. destruct H as [Hk H].
   split; [intro; subst k; discriminate Hk|].
   destruct m; [| |discriminate H]; apply andb_true_iff in H; destruct H as [H1 H2];
-    apply mem_In in H1; (split; [exact H1|]); apply orb_true_iff in H2; destruct H2 as [H2|H2].
-  - left. apply mem_In. exact H2.
-  - right. apply mem_false. apply negb_true_iff. exact H2.
-  - left. apply mem_false. apply negb_true_iff. exact H2.
-  - right. apply mem_In. exact H2.
+    apply mem_In in H1; apply orb_true_iff in H2.
+  - split; [left; exact H1|]. destruct H2 as [H2|H2].
+    + left. apply mem_In. exact H2.
+    + right. apply mem_false. apply negb_true_iff. exact H2.
+  - split; [exact H1|]. destruct H2 as [H2|H2].
+    + left. apply mem_false. apply negb_true_iff. exact H2.
+    + right. apply mem_In. exact H2.
 Qed.
 
 Fixpoint valid_history_b (tables : list fmt_table) (st : state) (es : list edit) : bool :=
@@ -777,6 +812,22 @@ Proof.
   intros tables es. induction es as [|e t IH]; intros st H; [exact I|].
   cbn [valid_history_b] in H. apply andb_true_iff in H. destruct H as [H1 H2].
   split; [apply valid_edit_b_sound; exact H1 | apply IH; exact H2].
+Qed.
+
+Example new_name_with_nan_group :
+  let st := refresh [] (mkState Qual (of_list [VStr "a"; VStr "b"; VStr "__NAN__"]) (VStr "__NAN__")
+                                (VStr "__OTHER__") true OStr []) in
+  let st' := fst (update [] st MGroup (VStr "a") (VStr "NEW")) in
+  valid_edit st MGroup (VStr "a") (VStr "NEW") /\
+  keys (st_order st') = [VStr "b"; VStr "__NAN__"; VStr "NEW"] /\
+  transform_cell st' (VStr "a") = Ok (OLab (LVal (VStr "NEW"))) /\
+  transform_cell st' VNaN = Ok (OLab (LVal (VStr "__NAN__"))).
+Proof.
+  cbv zeta. split.
+  { split; [discriminate|]. split.
+    - right. vm_compute. intuition discriminate.
+    - left. vm_compute. left. reflexivity. }
+  split; [|split]; vm_compute; reflexivity.
 Qed.
 
 (* ---- non-vacuity --------------------------------------------------------------------------------- *)
